@@ -15,7 +15,7 @@ PREDEF = {"pcal": {"tag": "VCALENDAR", "D:displayname": "P"}, "pbook": {"tag": "
 LAYOUTS = [(False, False), (True, True)]
 
 
-def conf_for(base, lay, predefined=False):
+def conf_for(base, lay, predefined=False, extra=None):
     rf = os.path.join(base, "rights")
     if not os.path.exists(rf):
         with open(rf, "w") as f:
@@ -24,7 +24,10 @@ def conf_for(base, lay, predefined=False):
           "use_cache_subfolder_for_synctoken": "False"}
     if predefined:
         st["predefined_collections"] = json.dumps(PREDEF)
-    return {"auth": {"type": "none"}, "rights": {"type": "from_file", "file": rf}, "storage": st}
+    conf = {"auth": {"type": "none"}, "rights": {"type": "from_file", "file": rf}, "storage": st}
+    for sec, kv in (extra or {}).items():
+        conf.setdefault(sec, {}).update(kv)
+    return conf
 
 
 def EV(uid, summary="s"):
@@ -173,8 +176,41 @@ def op_requests():
         "mkcol": dict(method="MKCOL", path="/user/plain/col2/", login=L, kind="RMkcol", coll="user/plain/col2"),
         "mkcalendar": dict(method="MKCALENDAR", path="/user/mk/", login=L, kind="RMkcalendar", coll="user/mk"),
         "mkaddressbook": dict(method="MKCOL", path="/user/mkb/", data=MKBOOK, login=L, kind="RMkcalendar", coll="user/mkb"),
+        # large items: the text layer hands them to write() at once, not at flush() (faults on write itself, short writes)
+        "put_big_new": dict(method="PUT", path="/user/cal/big1.ics", data=EV("big1", "B" * 20000), login=L, kind="RPutItem", coll="user/cal", href="big1.ics"),
+        "put_big_over": dict(method="PUT", path="/user/cal/e1.ics", data=EV("e1", "O" * 20000), login=L, kind="RPutItem", coll="user/cal", href="e1.ics"),
         "home": dict(method="PROPFIND", path="/u2/", login="u2:", headers={"HTTP_DEPTH": "0"}, kind="RHome", coll="u2"),
         "home_predef": dict(method="PROPFIND", path="/u3/", login="u3:", headers={"HTTP_DEPTH": "0"}, kind="RHome", coll="u3", predefined=True),
+    }
+
+
+def guard_requests():
+    """Requests the un-faulted server REFUSES (precondition / conflict): the store must stay unchanged, whatever
+    fault hits one of the calls that evaluate the precondition."""
+    D = "http://127.0.0.1"
+    H = {"HTTP_HOST": "127.0.0.1"}
+    G = dict(login=L, kind="Guard")
+    return {
+        "g_move_noover_cross": dict(G, method="MOVE", path="/user/cal/e2.ics", headers=dict(H, HTTP_DESTINATION=D + "/user/cal2/e2dup.ics"),
+                                    coll="user/cal", coll2="user/cal2", expect=412),
+        "g_move_noover_same": dict(G, method="MOVE", path="/user/cal/e1.ics", headers=dict(H, HTTP_DESTINATION=D + "/user/cal/e1dup.ics"),
+                                   coll="user/cal", expect=412),
+        "g_move_over_otheruid": dict(G, method="MOVE", path="/user/cal/e2.ics",
+                                     headers=dict(H, HTTP_DESTINATION=D + "/user/cal2/e2x.ics", HTTP_OVERWRITE="T"),
+                                     coll="user/cal", coll2="user/cal2", expect=409),
+        "g_put_otheruid": dict(G, method="PUT", path="/user/cal/e1.ics", data=EV("zz9", "other uid"), coll="user/cal", expect=409),
+        "g_put_ifnonematch": dict(G, method="PUT", path="/user/cal/e1.ics", data=EV("e1", "inm"), headers={"HTTP_IF_NONE_MATCH": "*"},
+                                  coll="user/cal", expect=412),
+        "g_put_ifnonematch_otheruid": dict(G, method="PUT", path="/user/cal/e1.ics", data=EV("zz8", "inm"), headers={"HTTP_IF_NONE_MATCH": "*"},
+                                           coll="user/cal", expect=412),
+        "g_put_ifmatch_wrong": dict(G, method="PUT", path="/user/cal/e1.ics", data=EV("e1", "im"), headers={"HTTP_IF_MATCH": '"nope"'},
+                                    coll="user/cal", expect=412),
+        "g_delete_ifmatch_wrong": dict(G, method="DELETE", path="/user/cal/e2.ics", headers={"HTTP_IF_MATCH": '"nope"'},
+                                       coll="user/cal", expect=412),
+        "g_mkcalendar_existing": dict(G, method="MKCALENDAR", path="/user/cal/", coll="user/cal", expect=409),
+        "g_mkcol_existing": dict(G, method="MKCOL", path="/user/abook/", data=MKBOOK, coll="user/abook", expect=405),
+        "g_put_unencodable": dict(G, method="PUT", path="/user/cal/e1.ics", data=EV("e1", "caf\u00e9"), coll="user/cal", expect=400,
+                                  conf_extra={"encoding": {"stock": "ascii"}}),
     }
 
 
@@ -183,6 +219,7 @@ EXTRA_OPS = {}
 
 def all_ops():
     d = op_requests()
+    d.update(guard_requests())
     d.update(EXTRA_OPS)
     return d
 
@@ -202,7 +239,8 @@ FOLLOWUPS = [dict(method="PROPFIND", path="/user/", login=L, headers={"HTTP_DEPT
 FOLLOWUP_EXPECT = [207, 201, 200, 207]
 
 
-def run_driver(case_dir, folder, conf, op, inject=None, list_before=(), list_after=(), timeout=120, followups=()):
+def run_driver(case_dir, folder, conf, op, inject=None, list_before=(), list_after=(), timeout=120, followups=(),
+               calls=None, strsize=70000, fsize=None):
     spec = os.path.join(case_dir, "spec.json")
     outp = os.path.join(case_dir, "out.json")
     tr = os.path.join(case_dir, "trace.txt")
@@ -210,8 +248,8 @@ def run_driver(case_dir, folder, conf, op, inject=None, list_before=(), list_aft
         if os.path.exists(f):
             os.remove(f)
     json.dump(dict(folder=folder, conf=conf, fsync=True, request=http_of(op), list_before=list(list_before),
-                   list_after=list(list_after), followups=list(followups)), open(spec, "w"))
-    cmd = ["strace", "-f", "-y", "-s", "70000", "-e", "trace=" + X.TRACE_CALLS, "-o", tr]
+                   list_after=list(list_after), followups=list(followups), fsize=fsize), open(spec, "w"))
+    cmd = ["strace", "-f", "-y", "-s", str(strsize), "-e", "trace=" + (calls or X.TRACE_CALLS), "-o", tr]
     if not (inject and "signal=" in inject):
         cmd.insert(2, "--seccomp-bpf")      # signal injection needs the syscall-entry stop
     if inject:
@@ -272,7 +310,7 @@ def prepare_case(base, shape, lay, opname, tag=""):
     os.makedirs(case_dir)
     folder = os.path.join(case_dir, "st")
     shutil.copytree(pre, folder, symlinks=True, copy_function=shutil.copy2)
-    return dict(case_dir=case_dir, folder=folder, conf=conf_for(base, lay, op.get("predefined", False)), op=op,
+    return dict(case_dir=case_dir, folder=folder, conf=conf_for(base, lay, op.get("predefined", False), op.get("conf_extra")), op=op,
                 shape=shape, lay=lay, opname=opname, pre=pre)
 
 
@@ -307,8 +345,23 @@ def unfaulted(base, shape, lay, opname):
             return contents.id(f.read())
     req = None
     pre_folder = c["pre"]
+    # ---- the read-side calls of the request (a second traced run with the read calls in the trace set, short strings)
+    rsites, rerr = [], None
     try:
-        if kind == "RPutItem":
+        c2 = prepare_case(base, shape, lay, opname, tag="-rd")
+        rc2, txt2, out2, tr2 = run_driver(c2["case_dir"], c2["folder"], c2["conf"], op, list_before=lb,
+                                          list_after=["collection-root/" + coll], calls=RD_CALLS, strsize=RD_STR)
+        if out2 is None or out2.get("status") != out.get("status"):
+            rerr = "read-site discovery run differs: status %s vs %s" % ((out2 or {}).get("status"), out.get("status"))
+        else:
+            rsites = X.read_sites(trace.parse(tr2), c2["folder"])
+        shutil.rmtree(c2["case_dir"], ignore_errors=True)
+    except Exception as ex:
+        rerr = "read-site discovery failed: %r" % (ex,)
+    try:
+        if kind == "Guard":
+            req = None
+        elif kind == "RPutItem":
             before = [n for n in (out["before"].get(lb[0]) or []) if X.Names.is_safe(n) and os.path.isfile(os.path.join(pre_folder, "collection-root", coll, n))]
             req = dict(kind=kind, c=P(coll), h=N(op["href"]), v=cid(coll + "/" + op["href"]), names=[N(n) for n in before],
                        exp=[N(n) for n in expired(pre_folder, lay, coll, {op["href"]: True})])
@@ -356,6 +409,7 @@ def unfaulted(base, shape, lay, opname):
     else:
         derive_error = None
     return dict(shape=shape, lay=lay, opname=opname, status=out.get("status"), request=req, derive_error=derive_error, pre_entries=pre_entries,
+                guard=kind == "Guard", rsites=rsites, rsites_error=rerr,
                 post_entries=post_entries, steps=[(s["step"], s["ok"]) for s in steps],
                 sys=[[(x.name, x.ordinal) for x in s["sys"]] for s in steps], locks=[(x.name, x.ordinal) for x in locks],
                 pre_abs=pre_abs, post_abs=post_abs, names=names, contents=contents, case_dir=c["case_dir"], error=None,
@@ -365,6 +419,8 @@ def unfaulted(base, shape, lay, opname):
 
 # ====================================================================== crash / fault injection
 SUCCESS = {200, 201, 204, 207}
+RD_CALLS = X.TRACE_CALLS + "," + X.READ_CALLS
+RD_STR = 400
 
 
 def inject_run(job):
@@ -374,10 +430,16 @@ def inject_run(job):
     c = prepare_case(job["base"], job["shape"], tuple(job["lay"]), job["opname"], tag="-" + job["tag"])
     op, folder = c["op"], c["folder"]
     mode, err, sysname, ordinal = job["inject"]
-    spec = "%s:%s:when=%d" % (sysname, "signal=KILL" if mode == "crash" else "error=" + err, ordinal)
+    if mode == "short":
+        # no strace tampering: RLIMIT_FSIZE = ordinal bytes during the request (short write, then EFBIG)
+        spec = None
+    else:
+        spec = "%s:%s:when=%d" % (sysname, "signal=KILL" if mode == "crash" else "error=" + err, ordinal)
     rc, txt, out, tr = run_driver(c["case_dir"], folder, c["conf"], op, inject=spec,
                                   list_before=job.get("list_before", ()), list_after=job.get("list_after", ()),
-                                  followups=FOLLOWUPS if mode != "crash" else ())
+                                  followups=FOLLOWUPS if mode != "crash" else (),
+                                  calls=RD_CALLS if job.get("rd") else None, strsize=RD_STR if job.get("rd") else 70000,
+                                  fsize=ordinal if mode == "short" else None)
     res = dict(tag=job["tag"], status=(out or {}).get("status"), killed=out is None, problems=[], hit=False)
     # did the injection hit the intended call?
     hit_line = None
@@ -392,7 +454,9 @@ def inject_run(job):
                 if n == ordinal:
                     hit_line = ln
                     break
-        if mode == "crash":
+        if mode == "short":
+            res["hit"] = any(" EFBIG " in ln for ln in lines)
+        elif mode == "crash":
             res["hit"] = any("killed by SIGKILL" in ln for ln in lines[-3:]) and out is None
         else:
             res["hit"] = hit_line is not None and "(INJECTED)" in hit_line
@@ -431,7 +495,7 @@ def inject_run(job):
     a = X.abs_of_tree(folder)
     a.pop(FOLLOWUP_KEY, None)
     cls = "before" if a == job["pre_abs"] else ("after" if a == job["post_abs"] else "neither")
-    if job["pre_abs"] == job["post_abs"]:
+    if job["pre_abs"] == job["post_abs"] and cls != "neither":
         cls = "same"
     if cls == "neither" and any(a == al for al in job.get("allowed", ())):
         cls = "unit-boundary"      # several atomic units (home + predefined collections): a prefix / subset of them is complete
@@ -446,6 +510,11 @@ def inject_run(job):
         res["problems"].append("visible store is neither before nor after: differs from before at %s, from after at %s" % (d1[:4], d2[:4]))
     if res["status"] in SUCCESS and cls == "before":
         res["problems"].append("answered %s but the store is in the before-state" % res["status"])
+    if res["status"] in SUCCESS and cls == "same" and job.get("base_status") not in SUCCESS and job.get("base_status") is not None:
+        res["problems"].append("answered %s (the fault-free run refuses the request with %s) and stored nothing" % (res["status"], job["base_status"]))
+    if cls == "neither" and job.get("base_status") is not None and job["pre_abs"] == job["post_abs"]:
+        res["problems"].append("the fault-free run answers %s and changes nothing; with the fault the request is answered %s" % (
+            job["base_status"], res["status"]))
     # ---- a fresh server over the surviving tree: verify passes, requests are served
     try:
         for d, ds, fs in os.walk(folder):
@@ -470,6 +539,86 @@ def inject_run(job):
         res["problems"].append("fresh server over the surviving tree fails: %r" % (ex,))
     shutil.rmtree(c["case_dir"], ignore_errors=True)
     return res
+
+
+READ_ERRNOS = ["EACCES", "EIO", "EMFILE", "ENOSPC"]
+
+
+def site_class(key):
+    variant, rel = key
+    parts = rel.split("/")
+    if "TMP" in parts:
+        return "tmp"
+    if ".Radicale.cache" in parts or parts[0] == "collection-cache":
+        return "cache"
+    last = parts[-1]
+    if last == ".Radicale.props" or variant in ("open", "read") or "." in last:
+        return "file"
+    return "dir"
+
+
+def op_targets(op):
+    """storage paths (relative to the folder) the request is about: its target, its destination, their collections and props files"""
+    t = set()
+    paths = [op["path"]]
+    dest = (op.get("headers") or {}).get("HTTP_DESTINATION")
+    if dest:
+        paths.append("/" + dest.split("/", 3)[3])
+    for p in paths:
+        p = p.strip("/")
+        t.add("collection-root/" + p)
+        t.add("collection-root/" + p + "/.Radicale.props")
+        if "/" in p:
+            t.add("collection-root/" + p.rsplit("/", 1)[0])
+            t.add("collection-root/" + p.rsplit("/", 1)[0] + "/.Radicale.props")
+    return t
+
+
+def read_points(un, quick, seen, op):
+    """Selection of read-side injections for one un-faulted case: list of (site dict, errno, occurrence label).
+    thorough: every call with a rotating errno, plus every call site (variant, path) on a path the request is about
+    with every errno.
+    quick: one injection per call site; for the paths the request is about (target, destination, their collections
+    and props files) every stat() of the path (the handlers ask several times: discover, preconditions, upload)
+    and open() with a PermissionError and with another OSError; the other sites (siblings, parents) are shared
+    between the request kinds of one HTTP method (`seen`), cache and temp-directory sites are taken once per
+    (method, kind of call)."""
+    by_key = {}
+    for r in un.get("rsites", []):
+        by_key.setdefault(r["key"], []).append(r)
+    targets = op_targets(op)
+    out = []
+    n = 0
+    for key, occ in by_key.items():
+        variant = key[0]
+        if not quick:
+            for i, r in enumerate(occ):
+                out.append((r, READ_ERRNOS[(n + i) % 4], "%d/%d" % (i + 1, len(occ))))
+            if key[1] in targets:
+                for e in READ_ERRNOS:
+                    if e != READ_ERRNOS[n % 4]:
+                        out.append((occ[0], e, "1/%d" % len(occ)))
+            n += 1
+            continue
+        cl = site_class(key)
+        if key[1] in targets:
+            if variant == "fstat" and cl == "dir":
+                continue
+            if variant == "stat":
+                for i, r in enumerate(occ[:4 if cl == "dir" else 6]):
+                    out.append((r, READ_ERRNOS[(n + i) % 4], "%d/%d" % (i + 1, len(occ))))
+            elif variant == "open":
+                out.append((occ[0], "EACCES", "1/%d" % len(occ)))
+                out.append((occ[0], "EMFILE" if n % 2 else "EIO", "1/%d" % len(occ)))
+            else:
+                out.append((occ[0], READ_ERRNOS[(n + 1) % 4], "1/%d" % len(occ)))
+        else:
+            k = (op["method"], key) if cl in ("file", "dir") else (op["method"], variant, cl)
+            if k not in seen:
+                seen.add(k)
+                out.append((occ[0], READ_ERRNOS[n % 4], "1/%d" % len(occ)))
+        n += 1
+    return out
 
 
 def injection_points(un, every_syscall=False):
